@@ -108,27 +108,27 @@ PLANS = {
                 "all 2^len match bitmaps for short haystacks, plus proptest-generated layouts up to 2 KiB (64 KiB thorough). "
                 "Non-trivial: the first match lies beyond the first vector of the implementation under test, or the haystack is non-empty "
                 "and shorter than one vector, or the match is on the 2nd/3rd needle. Distinct: enumerated cases are distinct by "
-                "construction; generated cases are deduplicated by a hash of (needles, haystack, placement).",
+                "construction; generated cases are deduplicated by a hash of (needles, haystack, placement). Size-gated paths: stage `large` - haystacks of 256 KiB .. 2 MiB (thorough up to 33 MiB) at 9 start offsets behind a page boundary, needle bytes directly outside the slice, one match at each of 701 positions from the scanned-from end, around the page boundaries, middle and end, or none, or every byte; stage `huge` - 4 GiB + 64 KiB.",
         "stages": byte_stages() + [miri_stage("B", quick=240, thorough=6000, targets=["M-a64", "M-i686", "M-s390x"], per_shard=60), huge_stage(NATIVE), large_stage(NATIVE, emu=True)],
     },
     "C02": {
         "technique": 'property-based testing: bounded-exhaustive enumeration on the END alignment + proptest layouts against a naive oracle; emulated NEON/simd128, forced CPU levels, Miri sample, >4 GiB stage',
         "rule": "as C01 with the END alignment as the enumerated axis (the reverse scan aligns on the end pointer) and rfind/rfind_raw/"
                 "memrchr* judged against the naive last position. Non-trivial: the last match lies before the final vector of the scan, "
-                "or 0 < len < one vector, or the match is on the 2nd/3rd needle.",
+                "or 0 < len < one vector, or the match is on the 2nd/3rd needle. Size-gated paths: stage `large` - haystacks of 256 KiB .. 2 MiB (thorough up to 33 MiB) at 9 start offsets behind a page boundary, needle bytes directly outside the slice, one match at each of 701 positions from the scanned-from end, around the page boundaries, middle and end, or none, or every byte; stage `huge` - 4 GiB + 64 KiB.",
         "stages": byte_stages() + [miri_stage("B", quick=240, thorough=6000, targets=["M-a64", "M-i686", "M-s390x"], per_shard=60), huge_stage(NATIVE), large_stage(NATIVE, emu=True)],
     },
     "C03": {
         "technique": 'property-based testing: needle-derived structured generation (proptest, shrinking) + exhaustive small-alphabet (needle, haystack) pairs against a naive oracle',
         "rule": SUB_GEN + "Judged: memmem::find, Finder::find, FinderBuilder(Prefilter::None)::find against the naive leftmost occurrence. "
                 "Non-trivial: needle length >= 2 and it occurs, or a window sharing >= half of the needle's prefix precedes the answer. "
-                "Distinct by hash of (needle, haystack); enumerated pairs are distinct by construction.",
+                "Distinct by hash of (needle, haystack); enumerated pairs are distinct by construction. Size-gated paths: stage `large` - needles of 1..300 bytes planted at 0 / 1 / middle / very end of 1-2 MiB haystacks (thorough up to 33 MiB) carrying partial needles; stage `huge` - 4 GiB + 64 KiB.",
         "stages": sub_stages() + [huge_stage(["N-auto", "N-fb"]), large_stage(NATIVE)],
     },
     "C04": {
         "technique": 'property-based testing: needle-derived structured generation (proptest, shrinking) + exhaustive small-alphabet pairs against a naive oracle (reverse)',
         "rule": SUB_GEN + "Judged: memmem::rfind and FinderRev::rfind against the naive rightmost occurrence (empty needle -> haystack length). "
-                "Non-trivial as C03.",
+                "Non-trivial as C03. Size-gated paths: stage `large` - needles of 1..300 bytes planted at 0 / 1 / middle / very end of 1-2 MiB haystacks (thorough up to 33 MiB) carrying partial needles; stage `huge` - 4 GiB + 64 KiB.",
         "stages": sub_stages(short=False) + [huge_stage(["N-auto"]), large_stage(NATIVE)],
     },
     "C06": {
@@ -138,7 +138,7 @@ PLANS = {
                 "bracket the remaining count, and after exhaustion 4+4 alternating calls must return None. Implementations: Memchr/Memchr2/Memchr3, "
                 "memrchr*_iter, iter() of every One/Two/Three. Enumerated: every match bitmap of haystacks up to 10 (12) bytes; generated: lengths "
                 "0..=1 KiB (4 KiB), sparse / clustered-inside-one-vector / dense layouts. Non-trivial: >= 2 matches of which two are less than "
-                "one vector apart (the two ends meet inside one vector on some explored history). Distinct by hash of (needles, haystack).",
+                "one vector apart (the two ends meet inside one vector on some explored history). Distinct by hash of (needles, haystack). Size-gated paths: stage `large` - haystacks of 256 KiB .. 2 MiB (thorough up to 33 MiB) at 9 start offsets behind a page boundary, needle bytes directly outside the slice, one match at each of 701 positions from the scanned-from end, around the page boundaries, middle and end, or none, or every byte; stage `huge` - 4 GiB + 64 KiB.",
         "stages": iter_stages() + [huge_stage(NATIVE), large_stage(NATIVE, emu=True), miri_stage("I", quick=120, thorough=4000, targets=["M-a64", "M-i686"], per_shard=60)],
     },
     "C07": {
@@ -147,7 +147,7 @@ PLANS = {
                 "(alignment x length x {none, single, first+dense, last+dense}), all match bitmaps, generated densities 1/2, 1/8, 1/64, every k-th, "
                 "all-but-one; plus count() of a clone taken at EVERY node of the complete next/next_back call tree (partially consumed iterators) "
                 "against the model's remaining count. Non-trivial: >= 2 matches in different regions of the scan, or an iterator advanced from "
-                "at least one end.",
+                "at least one end. Size-gated paths: stage `large` - haystacks of 256 KiB .. 2 MiB (thorough up to 33 MiB) at 9 start offsets behind a page boundary, needle bytes directly outside the slice, one match at each of 701 positions from the scanned-from end, around the page boundaries, middle and end, or none, or every byte; stage `huge` - 4 GiB + 64 KiB.",
         "stages": byte_stages() + iter_stages() + [huge_stage(NATIVE), large_stage(NATIVE, emu=True), miri_stage("B", quick=120, thorough=4000, targets=["M-a64", "M-i686", "M-s390x"], per_shard=60)],
     },
     "C08": {
@@ -155,7 +155,7 @@ PLANS = {
         "rule": SUB_GEN + "Judged: memmem::find_iter, Finder::find_iter (default and Prefilter::None), memmem::rfind_iter, FinderRev::rfind_iter and "
                 "the into_owned() forms, driven to the end + 3 extra calls, against the literal greedy model (leftmost, resume at i+max(len,1); mirror "
                 "image from the right; empty needle yields every offset once); size_hint of FindIter must bracket the remaining count before every "
-                "step. Non-trivial: needle length >= 2 and it occurs, or a near miss precedes the answer.",
+                "step. Non-trivial: needle length >= 2 and it occurs, or a near miss precedes the answer. Size-gated paths: stage `large` - needles of 1..300 bytes planted at 0 / 1 / middle / very end of 1-2 MiB haystacks (thorough up to 33 MiB) carrying partial needles; stage `huge` - 4 GiB + 64 KiB.",
         "stages": sub_stages(short=False) + [huge_stage(["N-auto"]), large_stage(NATIVE)],
     },
     "C11": {
@@ -262,7 +262,7 @@ PLANS = {
                 "emulated NEON/simd128/no-SIMD): any unwind from a top-level function, iterator, finder method or in-domain low-level searcher is a violation, "
                 "as is SIGABRT/SIGILL/SIGSEGV (crash journal). Documented panic: for every packed-pair finder type and generated (needle, pair), haystack "
                 "lengths on both sides of min_haystack_len (min-2 .. min+1 for every vector width, and 0): find and find_prefilter must panic iff len < min. "
-                "Values are not judged here. Non-trivial: haystack of at least one vector, needle >= 2 with haystack >= 16, or a length within 2 of the boundary.",
+                "Values are not judged here. Non-trivial: haystack of at least one vector, needle >= 2 with haystack >= 16, or a length within 2 of the boundary. Stage `large`: all of the above operations on 256 KiB .. 2 MiB haystacks.",
         "stages": [
             {"name": "bytes-exh", "cmd": "bytes-exh", "configs": cfgs(NATIVE + EMU), "shards": shards(16, 16, 8, 16)},
             {"name": "bytes-pbt", "cmd": "bytes-pbt", "configs": cfgs(NATIVE + EMU), "shards": shards(4, 16, 2, 8)},
@@ -320,7 +320,7 @@ PLANS = {
                 "their needle (into_owned itself performed with the probe disarmed); the arch-level One/Two/Three searchers of the configuration (arch::all, sse2, avx2, "
                 "neon, simd128: find, rfind, count, iterators); construction and search of twoway, rabinkarp and the portable packed-pair prefilter - about 60 calls per generated (needle, haystack) from the C03 / prefilter-phase / "
                 "short-fallback generators, plus the very first search of the fresh process (CPU detection). The count must stay 0. Positive control per run: "
-                "into_owned and shiftor::Finder::new must register >= 1 allocation, otherwise the run is inconclusive. Non-trivial: needle >= 2 and haystack >= 16.",
+                "into_owned and shiftor::Finder::new must register >= 1 allocation, otherwise the run is inconclusive. Non-trivial: needle >= 2 and haystack >= 16. The `large` stage repeats the probe on 1-2 MiB haystacks (needles 1..300 bytes, Finder, Prefilter::None, one-shot, twoway::Finder, iterators, reverse).",
         "stages": [
             {"name": "alloc", "cmd": "alloc", "configs": cfgs(NATIVE + EMU), "shards": shards(16, 16, 8, 8), "args": ["--scale", "5"]},
             large_stage(NATIVE),
